@@ -29,7 +29,7 @@ func runC15(c *Ctx) {
 	c.Rule("C15.O4", "E4", "Parse: the append to the input cache is unreachable without the ReadLimit test", 1)
 	c.Rule("C15.O5", "E4", "Parse: errors ErrMessageTooLarge and ErrControlMessageTooBig pass WriteClose(1009, ...) before the return", 1)
 	c.Rule("C15.O6", "E8", "isMessageTooLarge(n) == (MessageLengthLimit > 0 && n > MessageLengthLimit)", 1)
-	c.Rule("C15.O7", "E5", "inside the package control frames are sent through WriteMessage, the path that refuses payloads over 125 bytes: no call of WriteFrame / writeFrame with a constant control opcode elsewhere", 1)
+	c.Rule("C15.O7", "E5", "inside the package control frames are sent through WriteMessage or WriteFrame, the exported writers that refuse payloads over 125 bytes (C15.O3): no call of the raw writeFrame with a constant control opcode elsewhere", 1)
 	c.Rule("C15.O9", "E5", "an error that is wrapped on the WebSocket read path keeps its identity: every fmt.Errorf in the websocket package that takes an error argument wraps it with %w, so the errors.Is tests that choose the 1009 answer still recognise ErrMessageTooLarge", 1)
 	c.Rule("C15.O10", "E5", "a websocket.commonFields value is never rebuilt field by field: a function that fills a fresh commonFields sets MessageLengthLimit (a copy that leaves it out runs with 0, which means unlimited)", 1)
 	c15Round5(c)
@@ -413,12 +413,16 @@ func c15ControlSenders(c *Ctx) {
 			if !isK || op < 8 {
 				continue
 			}
-			if outer != "(*websocket.Conn).WriteMessage" {
+			// the exported writers carry the check themselves (C15.O3 decides that for both)
+			if c.P.CalleeName(cs.Common) == "(*websocket.Conn).WriteFrame" {
+				continue
+			}
+			if outer != "(*websocket.Conn).WriteMessage" && outer != "(*websocket.Conn).WriteFrame" {
 				bad = outer + " sends a control frame (opcode " + fmt.Sprint(op) + ") through " + c.P.CalleeName(cs.Common) + " at " + c.Pos(cs.In) + ", which has no control-payload check: a payload over 125 bytes goes out instead of being refused"
 			}
 		}
 	}
-	c.Cond(bad == "", "C15.O7", "control frames are sent through WriteMessage", "", fmt.Sprintf("%d frame-writer call site(s), none with a constant control opcode outside WriteMessage", n), bad)
+	c.Cond(bad == "", "C15.O7", "control frames are sent through WriteMessage", "", fmt.Sprintf("%d frame-writer call site(s), no raw writeFrame with a constant control opcode outside the exported writers", n), bad)
 }
 
 // c15SumNoWrap: O8.
